@@ -81,7 +81,7 @@ CHECKS['C06'] = (
     'bounded-exhaustive strings over token-kind alphabets + systematic mutation of generated documents + deep chains, outcome classifier with watchdog',
     'every string up to a length bound over three alphabets (one representative per character category and per token '
     'kind), random strings, all prefixes/deletions/transpositions/insertions of generated well-formed documents and '
-    'chains of up to 40 nested constructs are parsed in both tolerance modes under a watchdog; any outcome other than '
+    'chains of up to 40 nested constructs (random mixes and every opener alone at depths 10-40) are parsed in both tolerance modes under a watchdog; any outcome other than '
     'a tree or one of the documented diagnostics is a leak. ~0.4M strings quick, ~15M thorough. Exhaustive within the '
     'length bounds, exploration beyond.',
     'the watchdog (30 s, re-run 120 s) decides "hang"; documented diagnostics are recognised by type and message fragment',
@@ -98,7 +98,7 @@ CHECKS['C08'] = (
 CHECKS['C16'] = (
     'bounded-exhaustive + random + mutated strings and spaced generated documents, parse-serialise-parse metamorphic check',
     'for every in-domain string (C08 domain plus the sizing side condition) the saved text must parse again, save to '
-    'the identical text and give the identical canonical tree; for generated documents written with arbitrary attaching '
+    'the identical text and give the identical canonical tree (also for argument runs of 0..12 groups followed by blank lines / CR LF); for generated documents written with arbitrary attaching '
     'whitespace the saved text must equal the adjacent rendering of the same syntax tree. Exploration (exhaustive within '
     'the length bound).',
     'same scanner as C08; the generating syntax tree is the oracle for spaced documents',
@@ -116,10 +116,10 @@ CHECKS['C07'] = (
 
 CHECKS['C09'] = (
     'dedicated constructive generator (run shape x separators x contexts), exhaustive single-separator sweep + Hypothesis',
-    'commands are built with 0..3 bracket and 0..4 brace groups and a drawn attaching/detaching separator before each '
+    'commands are built with 0..3 bracket and 0..4 brace groups (and runs of up to 12+12 groups) and a drawn attaching/detaching separator (incl. every ASCII punctuation character and separators longer than 32 characters) before each '
     'group, in 16 contexts; the oracle is computed by construction: the attached run ends at the first detaching '
     'separator, every attached group has exactly its source text, and the document serialises to the source minus the '
-    'attaching separators inside the run. Every separator at every position of every shape <=2+2 in every context is '
+    'attaching separators inside the run, in both tolerance modes. Every separator at every position of every shape <=2+2 in every context is '
     'enumerated; random combinations and unpartnered brackets as text beyond. Exploration.',
     'the attaching/detaching classification of separators is taken from the property statement (one line break rule)',
     '3/C09')
@@ -163,7 +163,7 @@ CHECKS['C05'] = (
 CHECKS['C14'] = (
     'grammar-based generation + edit-the-syntax-tree-and-re-render oracle, one fresh parse per edit',
     'for generated documents (twin profile, strict separators) every kind of target (plain commands, \\item, plain/list/'
-    'math/verbatim environments) is renamed, re-stringed or re-argumented (slices, permutations, in-place reverse, '
+    'math/verbatim environments) is renamed, re-stringed or re-argumented (slices, permutations, in-place reverse / swap / sort / slice assignment, full-slice copies, '
     're-assignment of the node\'s own list) on a fresh parse; the same edit is applied to the generating syntax tree '
     'and re-rendered: text must match exactly, the search must see the change, and re-parsing must give the edited '
     'syntax tree. Exploration.',
@@ -173,7 +173,7 @@ CHECKS['C14'] = (
 CHECKS['C15'] = (
     'model-based testing of edit histories: Hypothesis-generated (document, operation list) pairs + exhaustive depth-2/3 histories on tiny documents, nested-list reference model',
     'a reference document (nested Python lists with a render()) is built from the generating syntax tree and subjected to '
-    'the same history of 13 kinds of edit as the TexSoup tree (targets by path, re-fetched each step; strings and freshly '
+    'the same history of 14 kinds of edit (incl. moving a node by copy-insert-delete) as the TexSoup tree (targets by path, re-fetched each step; strings and freshly '
     'parsed fragment copies as material; edits inside and next to inserted material and on twins). After every step: '
     'text == model text; find_all for every model name == model occurrences; descendants == closure; parent chains end at '
     'the root; text view == model text leaves. ~18k random histories up to 14 steps + all depth-2 histories over 78 '
@@ -184,7 +184,7 @@ CHECKS['C15'] = (
 CHECKS['C17'] = (
     'differential testing across input forms and across interpreters with different hash seeds + interleaved parse/edit histories with identity sweep',
     '(1) every generated source is parsed as str and as 2-chunk splits at all (short sources) or a spread of split points, '
-    'k-chunk splits with empties, lines, characters, StringIO and a real file: identical tree/text/line map/exception class; '
+    'k-chunk splits with empties, lines, characters, StringIO and a real file: identical tree/text/line map/exception class, also under tolerance=1 and skip_envs; '
     '(2) a corpus incl. every sizing prefix x delimiter x continuation is parsed by 16 (96 thorough) fresh interpreters '
     'with different PYTHONHASHSEED: identical digests; (3) histories interleave parses (default, skip_envs, tolerance) '
     'of several sources with heavy edits of live trees; after each step fresh default parses equal their reference trees '
